@@ -56,6 +56,19 @@ def verify_one(job):
                  'line': ob.line, 'note': ob.note}
             if r.get('second'):
                 d['second'] = r['second']
+            if r['status'] == 'unknown' and ob.kind == 'proof' and \
+                    getattr(c, 'sampler', None) is not None:
+                # the solver gave no answer: bounded native search for a
+                # failing input (refutation only)
+                from pyvc import replay
+                sr = replay.search_function(ex, c, qual, ex.args0,
+                                            seed=opts.get('seed', 0))
+                if sr.get('status') == 'reproduced':
+                    d['status'] = 'sat'
+                    d['backend'] = 'solver unknown; failing input found ' \
+                        'by bounded native search'
+                    d['model'] = {}
+                    d['replay'] = sr
             if r['status'] == 'sat' and ob.kind == 'proof':
                 d['model'] = r.get('model', {})
                 d['replay'] = r.get('extra') or {'status': 'no-replay'}
